@@ -837,7 +837,7 @@ def iterate(eng, st, v):
             yield st, keys
         else:
             yield from iterate(eng, st, c.keys)
-    elif isinstance(c, (ZipSeq, EnumSeq)):
+    elif isinstance(c, (ZipSeq, EnumSeq)) or getattr(c, "is_symbolic_sequence", False):
         yield st, c
     elif isinstance(c, SRef) and getattr(c.t, "iter_items", None) is not None:
         # an opaque reference standing for an (immutable) python list / tuple: its items are an uninterpreted sequence
